@@ -187,6 +187,22 @@ func (r *rewriter) rewriteFile(f *loader.File, printer FilePrinter) {
 	log.Printf("write file: %s\n", f.Filename)
 	// clear free-floating comments, preventing confusing position of comments
 	// https://github.com/golang/go/issues/20744
+	// a build constraint written directly above the package clause is the file's
+	// doc comment: it must not survive next to the negated constraint of the header
+	// (the generated file would be excluded from every build)
+	if doc := f.File.Doc; doc != nil {
+		kept := make([]*ast.Comment, 0, len(doc.List))
+		for _, c := range doc.List {
+			if !strings.HasPrefix(c.Text, "//go:build") && !strings.HasPrefix(c.Text, "// +build") {
+				kept = append(kept, c)
+			}
+		}
+		if len(kept) == 0 {
+			f.File.Doc = nil // (the group itself stays intact: it is still listed in File.Comments)
+		} else {
+			doc.List = kept
+		}
+	}
 	directives := floatingDirectives(f.File)
 	f.File.Comments = append(r.comments, directives...)
 	if len(f.File.Comments) > 0 {
